@@ -13,8 +13,41 @@ BACKENDS = [None, "netCDF4", "h5netcdf"]
 CLS = {None: "NetCDF4Array", "netCDF4": "NetCDF4Array", "h5netcdf": "H5netcdfArray"}
 COUNT_ROLES = ("RCount", "RIndex", "RNodeCount", "RPartNodeCount")
 
+TAGS = ["i1", "i2", "i4", "i8", "u1", "u2", "u4", "u8", "f4", "f8"]
+CODE = {t: k for k, t in enumerate(TAGS)}
+NPNAME = {"i1": "int8", "i2": "int16", "i4": "int32", "i8": "int64", "u1": "uint8", "u2": "uint16", "u4": "uint32",
+          "u8": "uint64", "f4": "float32", "f8": "float64"}
+TAG_OF = {v: k for k, v in NPNAME.items()}
+CTOR = {t: t.upper() for t in TAGS}          # Gallina constructor of Model.dt
+NOT_INTEGRAL = 1000003                       # stands for "a value that is neither 0 nor 1" in a Gallina pack
+
+
+def pk(unsigned=False, scale=None, offset=None):
+    return {"unsigned": unsigned, "scale": scale, "offset": offset}
+
+
 # minimised earlier failures (run first)
+_EQ_OWN_COPY = [["copy", 0], ["tomem", 1], ["eq", 0, 1], ["eq", 1, 0], ["arr", 0],
+                ["sub", 0, [["list", [1, 0]]]], ["arr", 2], ["first", 0]]
 CORPUS_OPS = [
+    # F12e / seed C12-s3: packed variables whose declared data type must be the realised one
+    # (short data, float32 scale_factor 2, float64 add_offset exactly 0: float64)
+    {"vars": [{"name": "a", "shape": [3], "flat": [4, -5, 6], "dtype": "i2", "pack": pk(scale=["f4", 2], offset=["f8", 0])}],
+     "heap": ["a"], "ops": _EQ_OWN_COPY},
+    # (only add_offset = 0.0: the data are cast to the type of the add_offset)
+    {"vars": [{"name": "a", "shape": [3], "flat": [4, None, 6], "dtype": "i2", "pack": pk(offset=["f8", 0])}],
+     "heap": ["a"], "ops": _EQ_OWN_COPY},
+    # (scale_factor exactly 1 and add_offset exactly 0: cast to the type of the scale_factor)
+    {"vars": [{"name": "a", "shape": [3], "flat": [4, -5, 6], "dtype": "i2", "pack": pk(scale=["f4", 1], offset=["f8", 0])}],
+     "heap": ["a"], "ops": _EQ_OWN_COPY},
+    {"vars": [{"name": "a", "shape": [3], "flat": [4, 5, 6], "dtype": "i4", "pack": pk(scale=["f4", 1])}],
+     "heap": ["a"], "ops": _EQ_OWN_COPY},
+    # (_Unsigned alone, and with integer packing attributes)
+    {"vars": [{"name": "a", "shape": [3], "flat": [-1, 5, None], "dtype": "i1", "pack": pk(unsigned=True)}],
+     "heap": ["a"], "ops": _EQ_OWN_COPY},
+    {"vars": [{"name": "a", "shape": [3], "flat": [-3, 5, 6], "dtype": "i2", "pack": pk(unsigned=True, scale=["i2", 3], offset=["f4", 0])}],
+     "heap": ["a"], "ops": _EQ_OWN_COPY},
+
     # F12b: the fetch raises (out-of-range list reaches dask's normalize_index with the file open)
     {"vars": [{"name": "a", "shape": [3, 4], "flat": list(range(12))}], "heap": ["a"],
      "ops": [["sub", 0, [["list", [0, 9]], ["slice", None, None, None]]], ["arr", 0],
@@ -50,11 +83,33 @@ def g_op(o):
     raise ValueError(o)
 
 
+def g_dt(npname):
+    return CTOR.get(TAG_OF.get(str(npname), "f8"), "F8")
+
+
+def g_attr(a):
+    if not a:
+        return "None"
+    v = a[1]
+    v = int(v) if float(v).is_integer() else NOT_INTEGRAL
+    return f"(Some ({CODE[a[0]]}%Z, {gz(v)}))"
+
+
+def g_pack(p):
+    p = p or {}
+    return f"({gbool(bool(p.get('unsigned')))}, {g_attr(p.get('scale'))}, {g_attr(p.get('offset'))})"
+
+
+def g_flat_oz(x):
+    # (an observed value that is not an integer is printed as a number no model value equals)
+    return g_oz(x) if (x is None or isinstance(x, int)) else "(Some 999999937%Z)"
+
+
 def g_obs(o):
     if "none" in o:
         return "ONone"
     if "arr" in o:
-        return f"(OArray {glist(o['arr']['shape'], gz)} {glist(o['arr']['flat'], g_oz)})"
+        return f"(OArray {glist(o['arr']['shape'], gz)} {g_dt(o['arr'].get('dtype'))} {glist(o['arr']['flat'], g_flat_oz)})"
     if "bool" in o:
         return f"(OBool {gbool(o['bool'])})"
     return f"(OErr {o['err']})"
@@ -121,8 +176,8 @@ def malformed_idx(rng, shape):
 
 # ---------------------------------------------------------------- numpy oracle for a history
 class OCell:
-    def __init__(self, shape, flat, missing=False, disk=True):
-        self.shape, self.flat, self.missing, self.disk = list(shape), list(flat), missing, disk
+    def __init__(self, shape, flat, missing=False, disk=True, dtype="i8"):
+        self.shape, self.flat, self.missing, self.disk, self.dtype = list(shape), list(flat), missing, disk, dtype
 
     def size(self):
         return int(np.prod(self.shape)) if self.shape else 1
@@ -135,7 +190,7 @@ def oracle_step(heap, op):
     c = heap[op[1]]
     info = {"disk": c.disk, "missing": c.missing, "want": None}
     if k == "copy":
-        heap.append(OCell(c.shape, c.flat, c.missing, c.disk))
+        heap.append(OCell(c.shape, c.flat, c.missing, c.disk, c.dtype))
         info["disk"] = False
         return {"none": True}, info
     if k == "sub":
@@ -146,7 +201,7 @@ def oracle_step(heap, op):
         if c.missing:
             return {"err": "OtherErr"}, info
         r = C03.oracle_get(c.shape, c.flat, op[2])
-        heap.append(OCell(r["shape"], r["flat"], False, False))
+        heap.append(OCell(r["shape"], r["flat"], False, False, c.dtype))
         info["want"] = poss
         return {"none": True}, info
     if k in ("tomem", "arr"):
@@ -156,7 +211,7 @@ def oracle_step(heap, op):
         if k == "tomem":
             c.disk = False
             return {"none": True}, info
-        return {"arr": {"shape": c.shape, "flat": c.flat}}, info
+        return {"arr": {"shape": c.shape, "flat": c.flat, "dtype": NPNAME[c.dtype]}}, info
     if k == "set":
         poss = C03.oracle_positions(c.shape, op[2])
         if poss is None:
@@ -177,13 +232,19 @@ def oracle_step(heap, op):
             info["want"] = [list(range(min(1, n))) for n in c.shape]
             return {"err": "ValueErr"}, info
         info["want"] = [[0] for _ in c.shape]
-        return {"arr": {"shape": [], "flat": [c.flat[0]]}}, info
+        # .item(): a Python int or float; numpy's masked constant is a float64
+        kind = "float64" if (c.flat[0] is None or c.dtype[0] == "f") else "int64"
+        return {"arr": {"shape": [], "flat": [c.flat[0]], "dtype": kind}}, info
     if k == "eq":
         d = heap[op[2]]
         if op[1] == op[2]:
             info["disk"] = False
             return {"bool": True}, info
         if c.shape != d.shape:
+            info["disk"] = False
+            return {"bool": False}, info
+        if c.dtype != d.dtype:
+            # different data types: not equal, and nothing needs to be fetched to know it
             info["disk"] = False
             return {"bool": False}, info
         if c.missing or d.missing:
@@ -195,20 +256,116 @@ def oracle_step(heap, op):
     raise ValueError(op)
 
 
+def np_unpack(v):
+    """Eager numpy oracle for a stored variable: (unpacked flat values, data type tag), by the
+    netCDF rule written directly in numpy (_Unsigned: reinterpret; unpacked = stored * scale_factor
+    + add_offset; a scale of one with an offset of zero only casts to the type of the attribute).
+    None when a value would not be exact (then the variable is not used)."""
+    dt = np.dtype(v.get("dtype", "i8"))
+    p = v.get("pack") or {}
+    raw = np.array([0 if x is None else x for x in v["flat"]], dtype=dt)
+    if p.get("unsigned") and dt.kind == "i":
+        raw = raw.view("u%d" % dt.itemsize)
+    sf = np.array(p["scale"][1], dtype=p["scale"][0])[()] if p.get("scale") else None
+    ao = np.array(p["offset"][1], dtype=p["offset"][0])[()] if p.get("offset") else None
+    with np.errstate(all="ignore"):
+        if sf is not None and ao is not None:
+            out = (raw * sf + ao) if (ao != 0 or sf != 1) else raw.astype(sf.dtype)
+        elif sf is not None:
+            out = (raw * sf) if sf != 1 else raw.astype(sf.dtype)
+        elif ao is not None:
+            out = (raw + ao) if ao != 0 else raw.astype(ao.dtype)
+        else:
+            out = raw
+    tag = out.dtype.str[1:]
+    if tag not in CODE:
+        return None
+    lim = {"f4": 2 ** 24, "f8": 2 ** 53}.get(tag)
+    flat = []
+    for x, y in zip(v["flat"], out.tolist()):
+        if x is None:
+            flat.append(None)
+            continue
+        if not isinstance(y, int) and not float(y).is_integer():
+            return None
+        if abs(y) >= (lim or 2 ** 62):
+            return None
+        flat.append(int(y))
+    return flat, tag
+
+
+def typed(v):
+    """Fill in what eager access sees (exp_flat, exp_dtype) for a variable description."""
+    v.setdefault("dtype", "i8")
+    r = np_unpack(v)
+    if r is None:
+        return None
+    v["exp_flat"], v["exp_dtype"] = r
+    return v
+
+
+def rand_attr(rng, trivial_value, values):
+    tag = rng.choice(["f4", "f4", "f8", "f8", "f8"] + TAGS)
+    if rng.random() < 0.4:
+        return [tag, trivial_value]
+    x = rng.choice(values)
+    if tag[0] == "u":
+        x = abs(x)
+    return [tag, x]
+
+
+def rand_typed_var(rng, name, shape):
+    """A variable of a random numeric type with random packing attributes (every combination of
+    types; scale_factor one / not one; add_offset zero / not zero; only one of them; _Unsigned)."""
+    while True:
+        dt = rng.choice(["i1", "i2", "i2", "i4", "i4", "i8", "u1", "u2", "u4", "u8", "f4", "f8"])
+        r = rng.random()
+        unsigned = dt in ("i1", "i2", "i4") and rng.random() < 0.25
+        if r < 0.12:
+            pack = pk(unsigned=unsigned)
+        else:
+            which = rng.choice(["both", "both", "both", "scale", "offset"])
+            pack = pk(unsigned=unsigned,
+                      scale=rand_attr(rng, 1, [2, 3]) if which != "offset" else None,
+                      offset=rand_attr(rng, 0, [5, 7, -4]) if which != "scale" else None)
+        n = int(np.prod(shape)) if shape else 1
+        lo = 0 if (dt[0] == "u" or (unsigned and dt == "i4")) else -20
+        flat = [lo + (7 * k + rng.randint(0, 3)) % 41 for k in range(n)]
+        if shape and rng.random() < 0.4:
+            for j in range(n):
+                if rng.random() < 0.2:
+                    flat[j] = None
+        v = typed({"name": name, "shape": shape, "flat": flat, "dtype": dt, "pack": pack})
+        if v is not None:
+            return v
+
+
 def rand_file(rng):
     nv = rng.randint(2, 4)
     vars_ = []
     for k in range(nv):
         shape = C03.rand_shape(rng, max_rank=3)
-        flat = C03.rand_flat(rng, shape, bool(shape) and rng.random() < 0.4)
-        v = {"name": "v%d" % k, "shape": shape, "flat": flat}
+        if rng.random() < 0.45:
+            flat = C03.rand_flat(rng, shape, bool(shape) and rng.random() < 0.4)
+            v = typed({"name": "v%d" % k, "shape": shape, "flat": flat})
+        else:
+            v = rand_typed_var(rng, "v%d" % k, shape)
         if rng.random() < 0.2:
             v["group"] = rng.choice(["g1", "g1/g2"])
         vars_.append(v)
     if rng.random() < 0.5:
         # a twin with the same values (equals -> True needs two different variables)
         src = rng.choice(vars_)
-        vars_.append({"name": "tw", "shape": src["shape"], "flat": list(src["flat"])})
+        tw = {k: (list(x) if isinstance(x, list) else x) for k, x in src.items() if k != "group"}
+        tw["name"] = "tw"
+        vars_.append(tw)
+    elif rng.random() < 0.5:
+        # ... or a variable that unpacks to the same values with ANOTHER data type: equal values,
+        # different types, so equals must say False before and after either is brought into memory
+        src = rng.choice(vars_)
+        if all(x is None or -100 < x < 100 for x in src["exp_flat"]) and src["exp_dtype"] != "f8" \
+                and all(x is None or x >= 0 for x in src["exp_flat"]):
+            vars_.append(typed({"name": "tw", "shape": src["shape"], "flat": list(src["exp_flat"]), "dtype": "f8"}))
     return {"vars": vars_}
 
 
@@ -228,7 +385,7 @@ def rand_history(rng, spec, nops):
         else:
             v = rng.choice(vs)
             heap_desc.append({"var": vname(v)})
-            heap.append(OCell(v["shape"], v["flat"]))
+            heap.append(OCell(v["shape"], v["exp_flat"], dtype=v["exp_dtype"]))
     ops = []
     for _ in range(nops):
         i = rng.randrange(len(heap))
@@ -259,7 +416,8 @@ def rand_history(rng, spec, nops):
                     idx = idx + [["int", 0]] * (len(c.shape) + 1)
             # (cfdm.masked is not assigned to 0-d data: subspacing a masked 0-d array in memory turns
             #  its data type into float64 - numpy's masked constant - which is not about files at all)
-            op = ["set", i, idx, None if (rng.random() < 0.3 and c.shape) else rng.randint(-9, -1)]
+            val = rng.randint(1, 9) if c.dtype[0] == "u" else rng.randint(-9, -1)
+            op = ["set", i, idx, None if (rng.random() < 0.3 and c.shape) else val]
         elif r < 0.88:
             op = ["first", i]
         else:
@@ -374,6 +532,83 @@ def hand_plain(rng, grouped=False):
             "gattrs": {"Conventions": "CF-1.11"}, "vars": vars_}
 
 
+def A(v, dtype):
+    return {"v": v, "dtype": dtype}
+
+
+def rand_packing_attrs(rng, stored):
+    """scale_factor / add_offset / _Unsigned attributes for a hand-encoded variable: every pairing of
+    attribute types, values one / zero / other (also non-integral), only one of the two attributes."""
+    attrs = {}
+    which = rng.choice(["both", "both", "both", "scale", "offset", "none"])
+    atypes = ["f4", "f8", "f8", "i2", "i4"]
+    if which in ("both", "scale"):
+        t = rng.choice(atypes)
+        attrs["scale_factor"] = A(rng.choice([1, 1, 2, 3] if t[0] == "i" else [1.0, 1.0, 0.5, 2.0, 0.25]), t)
+    if which in ("both", "offset"):
+        t = rng.choice(atypes)
+        attrs["add_offset"] = A(rng.choice([0, 0, 7, -4] if t[0] == "i" else [0.0, 0.0, 10.5, -3.0]), t)
+    if stored in ("i1", "i2", "i4") and rng.random() < 0.3:
+        attrs["_Unsigned"] = "true"
+    return attrs
+
+
+def hand_packed(rng):
+    """Packed and unsigned variables in every role: data variables (also zero-dimensional), dimension
+    coordinate with bounds, auxiliary coordinate, scalar coordinate, cell measure, ancillary variables."""
+    nx, ny = rng.randint(2, 4), rng.randint(1, 3)
+    dims = {"x": nx, "y": ny, "bnd": 2}
+    ints = lambda n, lo=-5: [lo + 3 * k for k in range(n)]  # noqa: E731
+    common = {"coordinates": "height lat2", "cell_measures": "area: cellarea", "ancillary_variables": "flag1 anc2"}
+    vars_ = [
+        {"name": "x", "dims": ["x"], "dtype": "i2", "values": ints(nx, 0),
+         "attrs": {"standard_name": "longitude", "units": "degrees_east", "bounds": "x_bnds", "scale_factor": A(0.5, "f4")}},
+        {"name": "x_bnds", "dims": ["x", "bnd"], "dtype": "i2", "values": [v for k in range(nx) for v in (3 * k - 1, 3 * k + 2)],
+         "attrs": {"scale_factor": A(0.5, "f4")}},
+        {"name": "y", "dims": ["y"], "dtype": "i4", "values": ints(ny, 10),
+         "attrs": {"standard_name": "latitude", "units": "degrees_north", "add_offset": A(0.0, "f8")}},
+        {"name": "height", "dims": [], "dtype": "i1", "values": [rng.randint(1, 9)],
+         "attrs": {"standard_name": "height", "units": "m", "scale_factor": A(2.0, "f4")}},
+        {"name": "lat2", "dims": ["y", "x"], "dtype": "i2", "values": ints(nx * ny, 100),
+         "attrs": {"long_name": "two-d aux", "units": "1", "scale_factor": A(1.0, "f8"), "add_offset": A(0.0, "f8")}},
+        {"name": "cellarea", "dims": ["y", "x"], "dtype": "i4", "values": ints(nx * ny, 1000),
+         "attrs": {"standard_name": "cell_area", "units": "m2", "scale_factor": A(1.0, "f4")}},
+        {"name": "flag1", "dims": ["x"], "dtype": "i1", "values": [rng.choice([-1, -2, 3, 100, -128]) for _ in range(nx)],
+         "attrs": {"long_name": "unsigned bytes", "_Unsigned": "true"}},
+        {"name": "anc2", "dims": ["x"], "dtype": "i2", "values": [rng.choice([-3, 2, 500]) for _ in range(nx)],
+         "attrs": {"long_name": "unsigned shorts, integer scale", "_Unsigned": "true", "scale_factor": A(3, "i2")}},
+        # the witnesses: a zero add_offset wider than the scale_factor; only a zero add_offset; scale one
+        {"name": "w1", "dims": ["y", "x"], "dtype": "i2", "values": ints(nx * ny),
+         "attrs": dict(common, standard_name="air_temperature", units="K", scale_factor=A(0.5, "f4"), add_offset=A(0.0, "f8"))},
+        {"name": "w2", "dims": ["y", "x"], "dtype": "i2", "values": ints(nx * ny), "fill": -5,
+         "attrs": dict(common, standard_name="air_pressure", units="Pa", add_offset=A(0.0, "f8"))},
+        {"name": "w3", "dims": ["y", "x"], "dtype": "i2", "values": ints(nx * ny),
+         "attrs": dict(common, standard_name="relative_humidity", units="1", scale_factor=A(1.0, "f4"), add_offset=A(0.0, "f8"))},
+        {"name": "w4", "dims": ["y", "x"], "dtype": "i4", "values": ints(nx * ny),
+         "attrs": dict(common, standard_name="wind_speed", units="m s-1", scale_factor=A(1.0, "f4"))},
+        # zero-dimensional packed data variables
+        {"name": "z0", "dims": [], "dtype": "i2", "values": [rng.randint(-9, 9)],
+         "attrs": {"standard_name": "surface_altitude", "units": "m", "scale_factor": A(2.0, "f8")}},
+        {"name": "z1", "dims": [], "dtype": "i1", "values": [-3],
+         "attrs": {"standard_name": "sea_surface_height", "units": "m", "_Unsigned": "true", "add_offset": A(1.5, "f4")}},
+    ]
+    names = ["eastward_wind", "northward_wind", "upward_air_velocity", "specific_humidity", "sea_water_salinity"]
+    for k in range(5):
+        stored = rng.choice(["i1", "i2", "i2", "i4", "u1", "f4"])
+        vals = ints(nx * ny, 0 if stored == "u1" else -5)
+        v = {"name": "r%d" % k, "dims": ["y", "x"], "dtype": stored, "values": vals,
+             "attrs": dict(common if rng.random() < 0.6 else {}, standard_name=names[k], units="1",
+                           **rand_packing_attrs(rng, stored))}
+        if rng.random() < 0.4 and stored != "f4":
+            v["attrs"]["_FillValue"] = vals[rng.randrange(len(vals))]
+        vars_.append(v)
+    for v in vars_:
+        if "fill" in v:
+            v["attrs"]["_FillValue"] = v.pop("fill")
+    return {"kind": "hand", "label": "packed", "packed": True, "dims": dims, "gattrs": {"Conventions": "CF-1.11"},
+            "vars": vars_}
+
+
 def hand_strings(rng):
     nx = rng.randint(1, 4)
     dims = {"x": nx, "strlen": 5}
@@ -455,7 +690,7 @@ def read_specs(chk):
     specs.append({"kind": "example", "n": 0, "group": ["forecast", "model"], "label": "example0-grouped"})
     reps = 10 if T else 2
     for _ in range(reps):
-        specs += [hand_plain(rng), hand_plain(rng, grouped=True), hand_strings(rng), hand_dsg(rng, False),
+        specs += [hand_packed(rng), hand_plain(rng), hand_plain(rng, grouped=True), hand_strings(rng), hand_dsg(rng, False),
                   hand_dsg(rng, True), hand_geometry(rng, False), hand_geometry(rng, True)]
     return specs
 
@@ -530,6 +765,18 @@ def run_sharded(mode, cases, scratch, extra=None, nworkers=12):
     return rows, crashed
 
 
+def pack_kind(v):
+    p = v.get("pack") or {}
+    k = []
+    if p.get("unsigned"):
+        k.append("unsigned")
+    if p.get("scale"):
+        k.append("scale=1" if p["scale"][1] == 1 else "scale")
+    if p.get("offset"):
+        k.append("offset=0" if p["offset"][1] == 0 else "offset")
+    return "+".join(k) or "plain"
+
+
 def sig_open(step_has_error):
     return "file-left-open-when-access-raises" if step_has_error else "file-left-open-after-access"
 
@@ -552,16 +799,31 @@ def judge_history(chk, c, r, spec, stats):
             chk.fail("property", "read-array-not-lazy-or-wrong-backend",
                      f"backend {c['backend']}: data of {hc} is {w} after read, expected disk:{CLS[c['backend']]}",
                      {"input": c, "observed": r["start"]})
-    # --- oracle heap
+    # --- oracle heap; the data type each object declares while on disk is the one its data will have
     heap = []
-    for hc in c["heap"]:
+    start_dt = r.get("start_dtype") or []
+    declared = []
+    if r.get("dtype_log"):
+        chk.fail("property", "read-fetches-array", f"asking for Data.dtype fetched {r['dtype_log'][:2]}",
+                 {"input": c, "observed": r["dtype_log"][:3]})
+    for k, hc in enumerate(c["heap"]):
+        got_dt = start_dt[k] if k < len(start_dt) else None
+        declared.append(got_dt)
         if "missing" in hc:
             heap.append(OCell(hc["shape"], [0] * (int(np.prod(hc["shape"])) if hc["shape"] else 1), True, True))
         else:
             v = byname[hc["var"]]
-            heap.append(OCell(v["shape"], v["flat"]))
+            heap.append(OCell(v["shape"], v["exp_flat"], dtype=v["exp_dtype"]))
+            stats["stored_types"][v["dtype"]] = stats["stored_types"].get(v["dtype"], 0) + 1
+            stats["pack_kinds"][pack_kind(v)] = stats["pack_kinds"].get(pack_kind(v), 0) + 1
+            if got_dt != NPNAME[v["exp_dtype"]]:
+                out["bad"] = True
+                chk.fail("property", "declared-dtype-differs-from-realised",
+                         f"backend {c['backend']}: Data.dtype of {hc['var']} ({v['dtype']}, packing {v.get('pack')}) is "
+                         f"{got_dt} while the data are on disk, {NPNAME[v['exp_dtype']]} once they are in memory",
+                         {"input": c, "expected": NPNAME[v["exp_dtype"]], "observed": got_dt})
     observed = []
-    bad_case = False
+    bad_case = out["bad"]
     for op, st in zip(c["ops"], r["steps"]):
         out["nsteps"] += 1
         stats["ops"][op[0]] = stats["ops"].get(op[0], 0) + 1
@@ -589,7 +851,7 @@ def judge_history(chk, c, r, spec, stats):
             ok = is_err and (exp["err"] is None or exp["err"] == got["err"])
         elif "arr" in exp:
             ok = "arr" in got and got["arr"]["shape"] == exp["arr"]["shape"] and got["arr"]["flat"] == exp["arr"]["flat"] \
-                and (op[0] != "arr" or got["arr"]["dtype"] == "int64")
+                and got["arr"]["dtype"] == exp["arr"]["dtype"]
         else:
             ok = got == exp
         if not ok:
@@ -610,7 +872,8 @@ def judge_history(chk, c, r, spec, stats):
         gets = [x for x in calls]
         fetched = sum((x.get("rsize") or 0) for x in gets if x.get("ret"))
         want = info["want"]
-        if not info["disk"] and op[0] != "eq":
+        if not info["disk"] and (op[0] != "eq" or info["want"] is None):
+            # (equals: same object, different shapes or different data types - nothing to fetch)
             if gets:
                 bad_case = True
                 chk.fail("property", "in-memory-data-refetched", f"{op}: data already in memory, yet the file was read",
@@ -656,9 +919,11 @@ def judge_history(chk, c, r, spec, stats):
         return out
     # --- literal for the model
     vars_lit = glist(list(enumerate(spec["vars"])),
-                     lambda kv: f"(0%Z, {gz(kv[0])}, {glist(kv[1]['shape'], gnat)}, {glist(kv[1]['flat'], g_oz)})")
-    heap_lit = glist(c["heap"], lambda hc: (f"(OnDisk 1%Z 0%Z {glist(hc['shape'], gz)})" if "missing" in hc else
-                                             f"(OnDisk 0%Z {gz(var_ids[hc['var']])} {glist(byname[hc['var']]['shape'], gz)})"))
+                     lambda kv: f"(0%Z, {gz(kv[0])}, {glist(kv[1]['shape'], gnat)}, {CODE[kv[1].get('dtype', 'i8')]}%Z, "
+                                f"{g_pack(kv[1].get('pack'))}, {glist(kv[1]['flat'], g_oz)})")
+    heap_lit = glist(list(zip(c["heap"], declared)), lambda hd: (
+        f"(OnDisk 1%Z 0%Z {glist(hd[0]['shape'], gz)} I8)" if "missing" in hd[0] else
+        f"(OnDisk 0%Z {gz(var_ids[hd[0]['var']])} {glist(byname[hd[0]['var']]['shape'], gz)} {g_dt(hd[1])})"))
     obs_lit = glist(observed, lambda oe: f"({g_obs(oe[0])}, {glist(oe[1], g_event)})")
     out["lit"] = (f"(({vars_lit}, {heap_lit}, {gbool(c['backend'] == 'h5netcdf')}, {glist(c['ops'], g_op)}, {obs_lit}) : ops_case)")
     nontriv = any(o[0] in ("sub", "set") and not C03.trivial_idx(o[2]) for o in c["ops"])
@@ -672,7 +937,8 @@ def run(chk, model_ok):
     rng = chk.rng
     T = chk.tier == "thorough"
     scratch = chk.scratch
-    stats = {"ops": {}, "errors": {}, "backends": {}, "read_labels": {}, "roles_fetched": {}, "fieldops": {}}
+    stats = {"ops": {}, "errors": {}, "backends": {}, "read_labels": {}, "roles_fetched": {}, "fieldops": {},
+             "stored_types": {}, "pack_kinds": {}, "dtype_checks": 0, "packed_read_vars": 0}
     ncorr = 0
     import time
     phase = {}
@@ -694,7 +960,7 @@ def run(chk, model_ok):
     files = [rand_file(rng) for _ in range(nfiles)]
     cases = []
     for c in CORPUS_OPS:
-        files.append({"vars": c["vars"]})
+        files.append({"vars": [typed(dict(v)) for v in c["vars"]]})
         for be in BACKENDS:
             heap = [({"missing": True, "shape": [int(h[1:])]} if h.startswith("?") else {"var": h}) for h in c["heap"]]
             cases.append({"file": len(files) - 1, "backend": be, "heap": heap, "ops": c["ops"], "fam": "corpus"})
@@ -722,7 +988,7 @@ def run(chk, model_ok):
         groups.append(("read", {"mode": "read", "scratch": scratch, "cases": [c]}, [c]))
 
     # histories over whole fields: one worker per dataset (the file is built once)
-    fspecs = [s_ for s_ in specs if s_["kind"] == "example"] + [s_ for s_ in specs if s_["kind"] == "hand"][:(21 if T else 7)]
+    fspecs = [s_ for s_ in specs if s_["kind"] == "example"] + [s_ for s_ in specs if s_["kind"] == "hand"][:(24 if T else 8)]
     fcases = field_cases(rng, fspecs, 8 if T else 2)
     for i, c in enumerate(fcases):
         c["i"] = i
@@ -862,13 +1128,71 @@ def run(chk, model_ok):
                 elif where.startswith("compressed-disk") and where.split(":")[1] != CLS[be]:
                     chk.fail("property", "read-array-not-lazy-or-wrong-backend",
                              f"{label} ({be}): compressed data of {ncvar} is {where}", {"input": label})
+            # --- bringing data into memory changes neither the data type nor equality
+            after = {(x[0], x[1], x[2]): x for x in e.get("dtype_after", [])}
+            dts = set()
+            for fvar, lab, ncvar, dt0, kind0, nfetch in e.get("dtype_before", []):
+                stats["dtype_checks"] += 1
+                k = ncvar if ncvar in roles else base.get(str(ncvar).split("/")[-1])
+                numeric = kind0 in "iuf"
+                if numeric and nfetch:
+                    chk.fail("property", "read-fetches-array",
+                             f"{label} ({be}): asking for the data type of {ncvar} ({lab}) fetched its values",
+                             {"input": label, "observed": [fvar, lab, ncvar, dt0]})
+                if numeric and k in var_ids and roles[k].get("tag") in CODE:
+                    dts.add((var_ids[k], CODE[TAG_OF[dt0]]) if dt0 in TAG_OF else (var_ids[k], -1))
+                    pkd = roles[k]["pack"]
+                    if pkd["unsigned"] or pkd["scale"] or pkd["offset"]:
+                        stats["packed_read_vars"] += 1
+                x = after.get((fvar, lab, ncvar))
+                if x is None:
+                    continue
+                _, _, _, dt_arr, kind_arr, dt_mem, where2, eq1, eq2, samefp = x
+                if (numeric or kind_arr in "iuf") and not (dt0 == dt_arr == dt_mem):
+                    chk.fail("property", "declared-dtype-differs-from-realised",
+                             f"{label} ({be}): Data.dtype of {ncvar} ({lab}) is {dt0} straight after read, its array is "
+                             f"{dt_arr}, a copy brought into memory is {dt_mem}",
+                             {"input": label, "expected": dt_arr, "observed": [fvar, lab, ncvar, dt0, dt_arr, dt_mem]})
+                elif not (eq1 and eq2):
+                    chk.fail("property", "equality-changed-by-bringing-into-memory" if samefp else "lazy-differs-from-eager",
+                             f"{label} ({be}): data of {ncvar} ({lab}) and a copy of them brought into memory: equals gives "
+                             f"{[eq1, eq2]}" + (" although values, masks and data types are identical" if samefp else ""),
+                             {"input": label, "observed": x})
+                if where2 not in ("mem", "compressed-mem"):
+                    chk.fail("property", "lazy-differs-from-eager",
+                             f"{label} ({be}): data of {ncvar} ({lab}) are still {where2} after to_memory",
+                             {"input": label, "observed": x})
+            for fvar, what, eq1, eq2 in e.get("memory_equals", []):
+                if eq1 is True and eq2 is True:
+                    continue
+                if what == "raised":
+                    chk.fail("property", "lazy-differs-from-eager",
+                             f"{label} ({be}): bringing field {fvar} into memory and comparing raised {eq1}",
+                             {"input": label, "observed": [fvar, what, eq1]})
+                    continue
+                # (explained already by a data type that changes?)
+                chk.fail("property", "equality-changed-by-bringing-into-memory",
+                         f"{label} ({be}): {what} of field {fvar} is not equal to its own copy brought into memory: {[eq1, eq2]}",
+                         {"input": label, "observed": [fvar, what, eq1, eq2]})
+            if e.get("open_after_memory"):
+                chk.fail("property", "file-left-open-after-access",
+                         f"{label} ({be}): open after to_memory {e['open_after_memory']}", {"input": label})
             if e["raw_mismatch"]:
                 chk.fail("property", "lazy-differs-from-eager",
                          f"{label} ({be}): values differ from an eager netCDF4-python read: {e['raw_mismatch'][:2]}",
                          {"input": label, "observed": e["raw_mismatch"][:3]})
             fps[str(be)] = e["fp"]
-            rlits.append("((" + glist(sorted(roles), lambda k: f"({gz(var_ids[k])}, {glist(cf_shape(k), gz)}, {roles[k]['role']})")
-                         + f", {gbool(be == 'h5netcdf')}, {glist(sorted(fetched_ids), gz)}, {glist(sorted(inmem_ids), gz)}) : read_case)")
+            def g_var(k):
+                tag = roles[k].get("tag")
+                pkd = roles[k].get("pack") or {}
+                if tag not in CODE:
+                    tag, pkd = "f8", {}
+                pkd = {a: (None if b == "other" else b) for a, b in pkd.items()}
+                return f"({gz(var_ids[k])}, {glist(cf_shape(k), gz)}, {roles[k]['role']}, {CODE[tag]}%Z, {g_pack(pkd)})"
+
+            rlits.append("((" + glist(sorted(roles), g_var)
+                         + f", {gbool(be == 'h5netcdf')}, {glist(sorted(fetched_ids), gz)}, {glist(sorted(inmem_ids), gz)}, "
+                         + glist(sorted(dts), lambda x: f"({gz(x[0])}, {gz(x[1])})") + ") : read_case)")
             rlit_case.append((label, be, e["fetched"]))
         if len(set(fps.values())) > 1:
             chk.fail("property", "backends-differ",
@@ -940,6 +1264,9 @@ def run(chk, model_ok):
         "op_kinds": stats["ops"], "error_classes": stats["errors"], "backends": stats["backends"],
         "read_labels": stats["read_labels"], "roles_of_variables_fetched_by_read": stats["roles_fetched"],
         "field_op_kinds": stats["fieldops"],
+        "stored_types_of_history_variables": stats["stored_types"], "packing_of_history_variables": stats["pack_kinds"],
+        "data_objects_checked_for_dtype_and_equality_in_memory": stats["dtype_checks"],
+        "of_which_packed_or_unsigned": stats["packed_read_vars"],
         "phase_seconds": phase,
         "exhaustive": False,
     })
@@ -949,8 +1276,12 @@ def run(chk, model_ok):
         "constant; independent of files and backends, reported to C03)",
         "index expressions avoid the two C03 findings about dependencies (negative-step slice starting below -n; empty sequence "
         "indices on netCDF4-python), which are reported under C03",
-        "the values used for the model correspondence are 64-bit integers with missing data; floating-point, string, packed and "
-        "unsigned data are compared between backends and against netCDF4-python bit for bit, outside the model",
+        "the variables used for the model correspondence hold integral values of any numeric type (i1..u8, f4, f8) with missing "
+        "data, packed with integral scale_factor / add_offset of any type and _Unsigned (every intermediate result exact in "
+        "its type: below 2^24 in float32, 2^53 in float64; _Unsigned on int64 and negative int32 under _Unsigned are not "
+        "generated); non-integral packing values, strings and compressed data are compared between backends, against "
+        "netCDF4-python and against their own copies in memory, outside the model (the model's declared / realised data "
+        "types cover them: check_read)",
         "descriptor leaks inside the HDF5 / netCDF C libraries are visible only through /proc/self/fd; the reader's own dataset "
         "handle is modelled (Open ... Close around the scan) and observed only through /proc/self/fd after read returns",
         "compressed (ragged, gathered, geometry) data are outside the Coq model: their laziness, backend agreement and "
@@ -968,7 +1299,7 @@ def replay(chk, path):
             print("not a replayable history (dataset-level finding):", str(c)[:300])
             bad += 1
             continue
-        spec = {"vars": c["vars"]}
+        spec = {"vars": [typed(dict(v)) for v in c["vars"]]}
         case = {"i": 0, "file": 0, "backend": c.get("backend"), "heap": c["heap"], "ops": c["ops"]}
         rc, out, err = lib.run_worker("drive/c12.py", {"mode": "ops", "scratch": chk.scratch, "files": {"0": spec},
                                                         "cases": [case]})
@@ -978,7 +1309,8 @@ def replay(chk, path):
             bad += 1
             continue
         n0 = len(chk.failures)
-        res = judge_history(chk, case, rows[0], spec, {"ops": {}, "errors": {}, "backends": {}})
+        res = judge_history(chk, case, rows[0], spec, {"ops": {}, "errors": {}, "backends": {}, "stored_types": {},
+                                                       "pack_kinds": {}})
         fails = chk.failures[n0:]
         if res["lit"] is not None:
             try:
